@@ -87,6 +87,9 @@ def run_impl(case):
            "compl_y": enc(float(s.auc(lower=lo, upper=hi, y_axis="fnr"))),
            "mirror_x": enc(float(s.auc(lower=1 - hi, upper=1 - lo, x_axis="tnr"))),
            "swap_axes": enc(float(s.auc(x_axis="tpr", y_axis="fpr")))}
+    # both complements at once (tnr on x over the mirrored interval, fnr on y), through the alias names too
+    out["mirror_x_compl_y"] = enc(float(s.auc(lower=1 - hi, upper=1 - lo, x_axis="tnr", y_axis="fnr")))
+    out["mirror_x_compl_y_alias"] = enc(float(s.auc(lower=1 - hi, upper=1 - lo, x_axis="trr", y_axis="frr")))
     out["full_again"] = enc(float(s.auc()))      # a history of calls on one object must not change the answers
     out["win_again"] = enc(float(s.auc(lower=lo, upper=hi)))
     return out
@@ -163,6 +166,10 @@ def oracle(case, res):
         fails.append((f"C07/swap-axes/{cfg}", f"AUC with exchanged axes {r['swap_axes']} != 1 - {r['full']}"))
     if abs(F(r["compl_y"]) - ((hi - lo) - F(r["win"]))) > tol:
         fails.append((f"C07/complement-y/{cfg}", f"window [{lo},{hi}]: fnr-on-y {r['compl_y']} != (upper-lower) - {r['win']}"))
+    for key in ("mirror_x_compl_y", "mirror_x_compl_y_alias"):
+        if key in r and abs(F(r[key]) - ((hi - lo) - F(r["win"]))) > tol:
+            fails.append((f"C07/mirror-x-complement-y/{cfg}", f"window [{lo},{hi}]: tnr on x over the mirrored interval with fnr on y "
+                          f"({'alias names trr/frr' if key.endswith('alias') else 'tnr/fnr'}) gives {r[key]}, (upper-lower) - {r['win']} expected"))
     if abs(F(r["mirror_x"]) - F(r["win"])) > tol:
         fails.append((f"C07/mirror-x/{cfg}", f"window [{lo},{hi}]: tnr-on-x over mirrored interval {r['mirror_x']} != {r['win']}"))
     if not (set(case["pos"]) & set(case["neg"])):
